@@ -15,13 +15,16 @@ import (
 // C14 — EAP codec round trip and RFC 3748/4187/5448 framing incl. EAP-AKA' attributes.
 
 type c14Case struct {
-	K    string   `json:"k"` // packet | setter | overwrite
-	Name string   `json:"name"`
-	E    *ref.EAP `json:"eap,omitempty"`
-	T    uint8    `json:"attr,omitempty"`
-	N    int      `json:"size,omitempty"`
-	Seq  []ref.AKAAttr `json:"seq,omitempty"`
-	Then *ref.EAP      `json:"then,omitempty"`
+	K     string        `json:"k"` // packet | setter | overwrite
+	Name  string        `json:"name"`
+	E     *ref.EAP      `json:"eap,omitempty"`
+	T     uint8         `json:"attr,omitempty"`
+	N     int           `json:"size,omitempty"`
+	Seq   []ref.AKAAttr `json:"seq,omitempty"`
+	Then  *ref.EAP      `json:"then,omitempty"`
+	Lib   int           `json:"liberty,omitempty"` // wire: 1 non-zero padding, 2 non-zero reserved octets, 3 spare words
+	Fill  byte          `json:"fill,omitempty"`
+	Spare int           `json:"spare_words,omitempty"`
 }
 
 func init() {
@@ -43,6 +46,8 @@ func init() {
 				c14Packet(c, c14Case{K: "packet", Name: "(then)", E: cs.Then})
 			case "packet":
 				c14Packet(c, cs)
+			case "wire":
+				c14Wire(c, cs)
 			case "maporder":
 				c14MapOrder(c, cs.E)
 			case "setter":
@@ -161,6 +166,24 @@ func runC14(c *engine.Ctx) {
 			}
 		}
 	}
+	// packets from a foreign sender that used its liberties (non-zero padding, non-zero reserved octets, spare words)
+	for mask := 1; mask < 128; mask++ {
+		if !c.Mine() {
+			continue
+		}
+		for _, sz := range [][3]int{{7, 9, 20}, {5, 1, 0}, {16, 30, 32}, {4, 0, 20}, {6, 2, 20}} {
+			e := &ref.EAP{Code: uint8(1 + mask%2), ID: uint8(mask), Method: 50, Sub: 1, AKA: subset(mask, vals(sz[0], sz[1], sz[2]))}
+			for _, fill := range []byte{0xff, 0xa5, 0x01} {
+				c14Wire(c, c14Case{K: "wire", Name: "aka.wire", E: e, Lib: 1, Fill: fill})
+				c14Wire(c, c14Case{K: "wire", Name: "aka.wire", E: e, Lib: 2, Fill: fill})
+			}
+			for spare := 1; spare <= 3; spare++ {
+				for _, fill := range []byte{0, 0xff} {
+					c14Wire(c, c14Case{K: "wire", Name: "aka.wire", E: e, Lib: 3, Fill: fill, Spare: spare})
+				}
+			}
+		}
+	}
 	// map iteration order (instrumented build): encoding and attribute lookup must not depend on it
 	if engine.InstrumentedBuild() {
 		for mask := 0; mask < 128; mask++ {
@@ -191,7 +214,9 @@ func runC14(c *engine.Ctx) {
 	alpha := []ref.AKAAttr{{T: ref.AtRES, V: univ.Pat(5, 1)}, {T: ref.AtRES, V: univ.Pat(16, 2)}, {T: ref.AtRES, V: univ.Pat(8, 3)}, {T: ref.AtKDFInput, V: univ.Pat(3, 4)}, {T: ref.AtKDFInput, V: nil},
 		{T: ref.AtKDFInput, V: univ.Pat(260, 5)}, {T: ref.AtMAC, V: univ.Pat(16, 6)}, {T: ref.AtMAC, V: univ.Fill(16, 0)}, {T: ref.AtCheckcode, V: univ.Pat(20, 7)}, {T: ref.AtCheckcode, V: nil}, {T: ref.AtKDF, V: []byte{0, 2}},
 		// settings the setter must refuse; they must leave the message untouched
-		{T: ref.AtRES, V: univ.Pat(3, 8)}, {T: ref.AtRES, V: univ.Pat(17, 9)}, {T: ref.AtMAC, V: univ.Pat(15, 10)}, {T: ref.AtKDF, V: []byte{1, 2, 3}}, {T: ref.AtRAND, V: nil}}
+		{T: ref.AtRES, V: univ.Pat(3, 8)}, {T: ref.AtRES, V: univ.Pat(17, 9)}, {T: ref.AtMAC, V: univ.Pat(15, 10)}, {T: ref.AtKDF, V: []byte{1, 2, 3}}, {T: ref.AtRAND, V: nil},
+		// pseudo operations: intermediate Marshal; compute AT_MAC over the message and store it
+		{T: 0, V: []byte{1}}, {T: 0, V: []byte{2}}}
 	var rec func(seq []ref.AKAAttr)
 	rec = func(seq []ref.AKAAttr) {
 		if len(seq) > 0 {
@@ -209,6 +234,107 @@ func runC14(c *engine.Ctx) {
 			rec([]ref.AKAAttr{a})
 		}
 	}
+}
+
+// c14WireBytes assembles an EAP-AKA' packet the way a foreign sender may: lib selects the liberty taken —
+// 1: padding octets of AT_RES / AT_KDF_INPUT filled with fill; 2: reserved octets (AKA' header, RAND, AUTN, MAC,
+// CHECKCODE) filled with fill; 3: AT_RES / AT_KDF_INPUT reserve `spare` extra words filled with fill.
+func c14WireBytes(e *ref.EAP, lib int, fill byte, spare int) ([]byte, error) {
+	d := []byte{50, e.Sub, 0, 0}
+	if lib == 2 {
+		d[2], d[3] = fill, fill
+	}
+	for _, a := range e.AKA {
+		ab, err := ref.EncodeAKAAttr(a)
+		if err != nil {
+			return nil, err
+		}
+		switch a.T {
+		case ref.AtRES, ref.AtKDFInput:
+			if lib == 1 {
+				for i := 4 + len(a.V); i < len(ab); i++ {
+					ab[i] = fill
+				}
+			}
+			if lib == 3 {
+				if int(ab[1])+spare > 255 {
+					return nil, ref.ErrTooBig
+				}
+				ab[1] += byte(spare)
+				for i := 0; i < 4*spare; i++ {
+					ab = append(ab, fill)
+				}
+			}
+		case ref.AtRAND, ref.AtAUTN, ref.AtMAC, ref.AtCheckcode:
+			if lib == 2 {
+				ab[2], ab[3] = fill, fill
+			}
+		}
+		d = append(d, ab...)
+	}
+	if 4+len(d) > 0xffff {
+		return nil, ref.ErrTooBig
+	}
+	return append([]byte{e.Code, e.ID, byte((4 + len(d)) >> 8), byte(4 + len(d))}, d...), nil
+}
+
+// c14Wire: a packet received from a foreign sender that used its liberties. If the library accepts it, the values
+// read back are the values carried, and what the library then emits for this message is well-formed (zero padding,
+// lengths in words, exact bit lengths) and carries the same values.
+func c14Wire(c *engine.Ctx, cs c14Case) {
+	c.Evals++
+	wire, err := c14WireBytes(cs.E, cs.Lib, cs.Fill, cs.Spare)
+	if err != nil {
+		return
+	}
+	d := new(eap.EAP)
+	var derr error
+	if pi := engine.Catch(func() { derr = d.Unmarshal(append([]byte(nil), wire...)) }); pi != nil {
+		c.Violate(pi.Sig(), "EAP.Unmarshal panics: "+pi.Value, cs)
+		return
+	}
+	if derr != nil {
+		c.Count("foreign_packets_refused", 1)
+		return
+	}
+	tag := fmt.Sprintf("liberty%d", cs.Lib)
+	got := univ.ProjectEAP(d)
+	want := *cs.E
+	want.AKA = nil
+	m := akaMap(cs.E.AKA)
+	for t := 0; t < 256; t++ {
+		if v, ok := m[uint8(t)]; ok {
+			want.AKA = append(want.AKA, ref.AKAAttr{T: uint8(t), V: v})
+		}
+	}
+	if got.Canon() != want.Canon() {
+		c.Violate("wire/values/"+tag, fmt.Sprintf("%s: packet %x decodes to %s, carries %s", cs.Name, trunc(wire, 60), trs(got.Canon()), trs(want.Canon())), cs)
+		return
+	}
+	var b1, b2 []byte
+	var e1 error
+	if pi := engine.Catch(func() { b1, e1 = d.Marshal(); b2, _ = d.Marshal() }); pi != nil {
+		c.Violate(pi.Sig(), "EAP.Marshal of a decoded packet panics: "+pi.Value, cs)
+		return
+	}
+	if e1 != nil {
+		c.Count("decoded_foreign_packet_not_encodable", 1)
+		return
+	}
+	if !bytes.Equal(b1, b2) {
+		c.Violate("wire/marshal-not-deterministic/"+tag, fmt.Sprintf("%s: %x vs %x", cs.Name, trunc(b1, 40), trunc(b2, 40)), cs)
+		return
+	}
+	pe, perr := ref.ParseEAPOpt(b1, true)
+	if perr != nil {
+		c.Violate("wire/malformed/"+classify(perr)+"/"+tag, fmt.Sprintf("%s: received %x, emitted %x: %v", cs.Name, trunc(wire, 60), trunc(b1, 60), perr), cs)
+		return
+	}
+	if pe.Canon() != want.Canon() {
+		c.Violate("wire/re-encoded-fields/"+tag, fmt.Sprintf("%s: emitted packet says %s, received packet carried %s", cs.Name, trs(pe.Canon()), trs(want.Canon())), cs)
+		return
+	}
+	c.Distinct(engine.Hash64(wire))
 }
 
 func akaMap(at []ref.AKAAttr) map[uint8][]byte {
@@ -392,8 +518,50 @@ func c14Overwrite(c *engine.Ctx, seq []ref.AKAAttr) {
 	c.Evals++
 	cs := c14Case{K: "overwrite", Seq: seq}
 	a := eap.NewEapAkaPrime(eap.SubtypeAkaChallenge)
+	e := &eap.EAP{Code: eap.EapCodeRequest, Identifier: 9, EapTypeData: a}
 	var valid []ref.AKAAttr
 	for _, s := range seq {
+		if s.T == 0 {
+			// pseudo operations between the settings: an intermediate Marshal (its output is judged like the final
+			// one), or the usual authentication step — compute the code over the message, then store it
+			switch s.V[0] {
+			case 1:
+				b, err := e.Marshal()
+				if err != nil {
+					c.Violate("overwrite/marshal-error", errStr(err), cs)
+					return
+				}
+				want := &ref.EAP{Code: 1, ID: 9, Method: 50, Sub: 1}
+				m := akaMap(valid)
+				for t := 0; t < 256; t++ {
+					if v, ok := m[uint8(t)]; ok {
+						want.AKA = append(want.AKA, ref.AKAAttr{T: uint8(t), V: v})
+					}
+				}
+				if pe, perr := ref.ParseEAP(b); perr != nil || pe.Canon() != want.Canon() {
+					c.Violate("overwrite/stale-value/intermediate", fmt.Sprintf("intermediate Marshal after %d settings: %x (%v), settings so far %s", len(valid), trunc(b, 60), perr, trs(want.Canon())), cs)
+					return
+				}
+			case 2:
+				var mac []byte
+				var err error
+				if pi := engine.Catch(func() { mac, err = e.CalcEapAkaPrimeAtMAC(univ.Pat(32, 3)) }); pi != nil {
+					c.Violate(pi.Sig(), "CalcEapAkaPrimeAtMAC panics: "+pi.Value, cs)
+					return
+				}
+				if err != nil || len(mac) != 16 {
+					c.Violate("overwrite/mac-error", fmt.Sprintf("%v (%d octets)", err, len(mac)), cs)
+					return
+				}
+				mac = append([]byte(nil), mac...)
+				if err := a.SetAttr(eap.AT_MAC, mac); err != nil {
+					c.Violate("overwrite/set-error", errStr(err), cs)
+					return
+				}
+				valid = append(valid, ref.AKAAttr{T: ref.AtMAC, V: mac})
+			}
+			continue
+		}
 		wrong := (s.T == ref.AtRES && (len(s.V) < 4 || len(s.V) > 16)) || ((s.T == ref.AtRAND || s.T == ref.AtAUTN || s.T == ref.AtMAC) && len(s.V) != 16) || (s.T == ref.AtKDF && len(s.V) != 2)
 		err := a.SetAttr(eap.EapAkaPrimeAttrType(s.T), s.V)
 		if wrong {
@@ -410,7 +578,6 @@ func c14Overwrite(c *engine.Ctx, seq []ref.AKAAttr) {
 		valid = append(valid, s)
 	}
 	seq = valid
-	e := &eap.EAP{Code: eap.EapCodeRequest, Identifier: 9, EapTypeData: a}
 	b, err := e.Marshal()
 	if err != nil {
 		c.Violate("overwrite/marshal-error", errStr(err), cs)
